@@ -635,8 +635,7 @@ class Deep:
     def _opaque(self, st, path, args, site, cont, f=None):
         uid = self.fresh()
         # shared references to known values (`&ScenarioType::Serial`, `&key`) are shown by value
-        snap = []
-        for a in args:
+        def by_value(a, depth=0):
             if isinstance(a, tuple) and a and a[0] == "ref":
                 v = self.read(st, a[1])
                 if v[0] == "const" or (v[0] == "variant" and not v[3]):
@@ -651,7 +650,13 @@ class Deep:
                         pl = pl[1]
                     if clean and pl[0] == "L" and pl in st.heap and pl not in self.mut_refs:
                         a = ("refto", v)
-            snap.append(a)
+            elif depth < 2 and isinstance(a, tuple) and a and a[0] == "variant" and a[3]:
+                # `Some(&rule)`: a shared reference wrapped into an Option / tuple argument
+                a = (a[0], a[1], a[2], tuple(by_value(x, depth + 1) for x in a[3]))
+            elif depth < 2 and isinstance(a, tuple) and a and a[0] == "tuple":
+                a = ("tuple", tuple(by_value(x, depth + 1) for x in a[1]))
+            return a
+        snap = [by_value(a) for a in args]
         # an opaque callee may write through the `&mut` references it receives (directly or captured by a closure
         # argument): what they point to is unknown afterwards
         for a in args:
